@@ -3,35 +3,35 @@ import Comdex.Model.LiqLedger
 /-! Driver for the liquidity ledger model (C04, C07).
 
 Lines (tab separated, after `seq`):
-  liq.begin   prop queueDur apps funds
+  lq.begin   prop queueDur apps funds
                  apps  = app:feeRate:batch:maxLife:pairFee:poolFee:minDep:minSup:maxPools;…
                  funds = user:coin:amt;…
-  liq.block   height now
-  liq.createPair app user base quote ext <outcome>
-  liq.createPool app user pair ranged dx dy ammPs ext <outcome>
-  liq.deposit app user pool dx dy ext <outcome>
-  liq.withdraw app user pool pc ext <outcome>
-  liq.order   app user pair typ buy msgOffer msgPrice price amount lifespan ext <outcome>
-  liq.mmOrder app user pair buyTicks sellTicks lifespan ext <outcome>       tick = offer:price:amount
-  liq.cancel  app user pair id <outcome>
-  liq.cancelAll app user pairs <outcome>
-  liq.cancelMM app user pair <outcome>
-  liq.farm / liq.unfarm  app user pool amt ext <outcome>
-  liq.depositAndFarm app user pool dx dy ax ay pc ext <outcome>
-  liq.unfarmAndWithdraw app user pool amt x y ext <outcome>
-  liq.bb      app
-  liq.eb      app matches deps wdrs <outcome>
+  lq.block   height now
+  lq.createPair app user base quote ext <outcome>
+  lq.createPool app user pair ranged dx dy ammPs ext <outcome>
+  lq.deposit app user pool dx dy ext <outcome>
+  lq.withdraw app user pool pc ext <outcome>
+  lq.order   app user pair typ buy msgOffer msgPrice price amount lifespan ext <outcome>
+  lq.mmOrder app user pair buyTicks sellTicks lifespan ext <outcome>       tick = offer:price:amount
+  lq.cancel  app user pair id <outcome>
+  lq.cancelAll app user pairs <outcome>
+  lq.cancelMM app user pair <outcome>
+  lq.farm / liq.unfarm  app user pool amt ext <outcome>
+  lq.depositAndFarm app user pool dx dy ax ay pc ext <outcome>
+  lq.unfarmAndWithdraw app user pool amt x y ext <outcome>
+  lq.bb      app
+  lq.eb      app matches deps wdrs <outcome>
                  matches = pair/fills/flows/dust|…   fill = id:buy:paid:recv:matched   flow = pool:buy:paid:recv
                  deps = pool:id:ax:ay:pc,…   wdrs = pool:id:x:y,…
-  liq.state   bal=… pairs=… pools=… deps=… wdrs=… orders=… mm=… farm=…      (the REAL state projection)
-  liq.inv     ok|broken msg                                                   (the repository's AllInvariants)
+  lq.state   bal=… pairs=… pools=… deps=… wdrs=… orders=… mm=… farm=…      (the REAL state projection)
+  lq.inv     ok|broken msg                                                   (the repository's AllInvariants)
 
 outcome ∈ ok err panic; only ok / not-ok is compared.  At every `liq.state` line the model state is compared
 with the real projection (DIFF) and the monitors of the property named in `liq.begin` are evaluated on the REAL
 projection (MON).  Monitor names: C04 — escrow_requests pair_escrow farm_custody zero_supply_disabled
 poolcoin_supply repo_invariants; C07 — taken_exact settled_exact cancellable mm_cancel_all.
 -/
--- DRIVER: prefix=liq ns=Comdex.Drv.LiqLedger
+-- DRIVER: prefix=lq ns=Comdex.Drv.LiqLedger
 namespace Comdex.Drv.LiqLedger
 open Comdex.LiqLedger Comdex.Line
 
@@ -232,27 +232,27 @@ def pWdrIns (s : String) : Option (List WdrIn) :=
 /-- op line → (op, real outcome) -/
 def pOp (f : List String) : Option (Op × String) :=
   match f with
-  | ["liq.block", h, t] => do pure (.block (← pNat h) (← pInt t), "ok")
-  | ["liq.createPair", a, u, b, q, e, o] => do pure (.createPair (← pNat a) (← pNat u) (← pDenom b) (← pDenom q) (← pBool e), o)
-  | ["liq.createPool", a, u, p, r, dx, dy, ps, e, o] => do
+  | ["lq.block", h, t] => do pure (.block (← pNat h) (← pInt t), "ok")
+  | ["lq.createPair", a, u, b, q, e, o] => do pure (.createPair (← pNat a) (← pNat u) (← pDenom b) (← pDenom q) (← pBool e), o)
+  | ["lq.createPool", a, u, p, r, dx, dy, ps, e, o] => do
     pure (.createPool (← pNat a) (← pNat u) (← pNat p) (← pBool r) (← pNat dx) (← pNat dy) (← pNat ps) (← pBool e), o)
-  | ["liq.deposit", a, u, p, dx, dy, e, o] => do pure (.deposit (← pNat a) (← pNat u) (← pNat p) (← pNat dx) (← pNat dy) (← pBool e), o)
-  | ["liq.withdraw", a, u, p, pc, e, o] => do pure (.withdraw (← pNat a) (← pNat u) (← pNat p) (← pNat pc) (← pBool e), o)
-  | ["liq.order", a, u, p, t, b, mo, mp, pr, am, l, e, o] => do
+  | ["lq.deposit", a, u, p, dx, dy, e, o] => do pure (.deposit (← pNat a) (← pNat u) (← pNat p) (← pNat dx) (← pNat dy) (← pBool e), o)
+  | ["lq.withdraw", a, u, p, pc, e, o] => do pure (.withdraw (← pNat a) (← pNat u) (← pNat p) (← pNat pc) (← pBool e), o)
+  | ["lq.order", a, u, p, t, b, mo, mp, pr, am, l, e, o] => do
     pure (.order (← pNat a) (← pNat u) (← pNat p) (← pOType t) (← pBool b) (← pNat mo) (← pNat mp) (← pNat pr) (← pNat am) (← pInt l) (← pBool e), o)
-  | ["liq.mmOrder", a, u, p, bs, ss, l, e, o] => do
+  | ["lq.mmOrder", a, u, p, bs, ss, l, e, o] => do
     pure (.mmOrder (← pNat a) (← pNat u) (← pNat p) (← pTicks bs) (← pTicks ss) (← pInt l) (← pBool e), o)
-  | ["liq.cancel", a, u, p, i, o] => do pure (.cancel (← pNat a) (← pNat u) (← pNat p) (← pNat i), o)
-  | ["liq.cancelAll", a, u, ps, o] => do pure (.cancelAll (← pNat a) (← pNat u) (← parseNatList ps), o)
-  | ["liq.cancelMM", a, u, p, o] => do pure (.cancelMM (← pNat a) (← pNat u) (← pNat p), o)
-  | ["liq.farm", a, u, p, n, e, o] => do pure (.farm (← pNat a) (← pNat u) (← pNat p) (← pNat n) (← pBool e), o)
-  | ["liq.unfarm", a, u, p, n, e, o] => do pure (.unfarm (← pNat a) (← pNat u) (← pNat p) (← pNat n) (← pBool e), o)
-  | ["liq.depositAndFarm", a, u, p, dx, dy, ax, ay, pc, e, o] => do
+  | ["lq.cancel", a, u, p, i, o] => do pure (.cancel (← pNat a) (← pNat u) (← pNat p) (← pNat i), o)
+  | ["lq.cancelAll", a, u, ps, o] => do pure (.cancelAll (← pNat a) (← pNat u) (← parseNatList ps), o)
+  | ["lq.cancelMM", a, u, p, o] => do pure (.cancelMM (← pNat a) (← pNat u) (← pNat p), o)
+  | ["lq.farm", a, u, p, n, e, o] => do pure (.farm (← pNat a) (← pNat u) (← pNat p) (← pNat n) (← pBool e), o)
+  | ["lq.unfarm", a, u, p, n, e, o] => do pure (.unfarm (← pNat a) (← pNat u) (← pNat p) (← pNat n) (← pBool e), o)
+  | ["lq.depositAndFarm", a, u, p, dx, dy, ax, ay, pc, e, o] => do
     pure (.depositAndFarm (← pNat a) (← pNat u) (← pNat p) (← pNat dx) (← pNat dy) (← pNat ax) (← pNat ay) (← pNat pc) (← pBool e), o)
-  | ["liq.unfarmAndWithdraw", a, u, p, n, x, y, e, o] => do
+  | ["lq.unfarmAndWithdraw", a, u, p, n, x, y, e, o] => do
     pure (.unfarmAndWithdraw (← pNat a) (← pNat u) (← pNat p) (← pNat n) (← pNat x) (← pNat y) (← pBool e), o)
-  | ["liq.bb", a] => do pure (.beginBlock (← pNat a), "ok")
-  | ["liq.eb", a, ms, ds, ws, o] => do pure (.endBlock (← pNat a) (← pMatches ms) (← pDepIns ds) (← pWdrIns ws), o)
+  | ["lq.bb", a] => do pure (.beginBlock (← pNat a), "ok")
+  | ["lq.eb", a, ms, ds, ws, o] => do pure (.endBlock (← pNat a) (← pMatches ms) (← pDepIns ds) (← pWdrIns ws), o)
   | _ => none
 
 /-! ### comparison of the model state with the real projection -/
@@ -472,12 +472,12 @@ def isMMOp : Op → Bool
 
 def handle (st : St) (seq : String) (f : List String) : St × List String :=
   match f with
-  | ["liq.begin", prop, qd, apps, funds] =>
+  | ["lq.begin", prop, qd, apps, funds] =>
     match pInt qd, pApps apps, pFunds funds with
     | some qd, some apps, some funds =>
       ({ prop := prop, cfg := { apps := apps, swapLookup := false, queueDur := qd }, s := genesis funds }, [])
     | _, _, _ => (st, [s!"BAD\t{seq}\tbegin"])
-  | "liq.state" :: rest =>
+  | "lq.state" :: rest =>
     match pReal rest with
     | none => (st, [s!"BAD\t{seq}\tcannot parse state"])
     | some cur =>
@@ -494,7 +494,7 @@ def handle (st : St) (seq : String) (f : List String) : St × List String :=
       let st1 := { st with s := s' }
       let mons := (monitors st1 cur).map fun n => s!"MON\t{seq}\t{n}"
       ({ st1 with alt := none, real := cur, haveReal := true, pendingDiff := [], lastOp := none }, out ++ mons)
-  | ["liq.inv", r, msg] =>
+  | ["lq.inv", r, msg] =>
     if r = "broken" && st.prop = "C04" then (st, [s!"MON\t{seq}\trepo_invariants\t{msg}"]) else (st, [])
   | _ =>
     match pOp f with
